@@ -207,6 +207,70 @@ prop("C17",
      note="trusts the allocator monitor; inspects the shipped -O3 build",
      design_ref="DESIGN.md#c17")
 
+
+# ----------------------------------------------------------------------------- C03 C07 C10
+prop("C03",
+     units=lambda tier: [Unit("c03", "c03.cpp", SHIPPED, cases=scale(tier, 2500, 80000), shards=16)],
+     level="exploration",
+     rule=("three generators: (a) single-block round trips D(E(x)) = x and E(D(x)) = x on all six SKINNY variants, the four "
+           "tweakable ones (after 0-2 tweak changes) and Mantis, incl. overlapping buffers; (b) parallel round trips for 0..29 "
+           "blocks on every back end, in place and out of place; (c) Mantis mode machine on a schedule or a parallel object: "
+           "set_key / set_tweak(bytes|NULL) / swap_modes / crypt / crypt_tweaked / parallel crypt, checked against the model "
+           "for the current mode, against swap-crypt-swap being the inverse, and (schedule image) against a schedule keyed "
+           "afresh in the current mode with the tweak re-applied; non-trivial = (a) any random key/block, (b) block count above "
+           "and not a multiple of the vector batch, (c) a swap after a tweak change followed by a crypt"),
+     assumptions=MODEL_ASSUME + BUILD_ASSUME + ["image comparison covers k0, k0', k1, tweak and rounds of MantisKey_t (trailing padding excluded)"],
+     technique="property-based testing (rapidcheck): round-trip laws (library vs library) + stateful Mantis mode machine vs model and struct image",
+     text=("Round-trip laws need no model: the inverse entry point must restore the input for generated keys, tweaks, blocks, "
+           "block counts and back ends. The Mantis mode machine is a stateful generated history with three oracles (model, "
+           "self-inverse under swap, struct image == fresh keying). Sampling, not proof."),
+     note="round trips trust nothing but the executor; the mode machine additionally trusts the MANTIS model",
+     design_ref="DESIGN.md#c03")
+
+prop("C07",
+     units=lambda tier: [Unit("c07", "c07.cpp", SHIPPED, cases=scale(tier, 2500, 100000), shards=16)],
+     level="exploration",
+     rule=("(cipher, key incl. in-between lengths / Mantis rounds and mode, back end, 1-3 calls with a block count drawn from "
+           "0..40, data, Mantis tweak array, in place or not, buffer offsets); oracle = the library's single-block functions "
+           "block by block under a schedule keyed with the plain set_key (Mantis: block i under tweak i), plus the API model; "
+           "the advertised parallel size must be a positive multiple of the block size; the evidence lists how often each block "
+           "count 0..40 was generated (the count dimension is covered completely when every 'blocks=n' class is non-zero); "
+           "non-trivial = a count above and not a multiple of the back end's batch"),
+     assumptions=BUILD_ASSUME + ["single-block functions are tied to the specification by C01/C02"],
+     technique="differential property-based testing (rapidcheck): parallel entry points vs the library's own single-block functions",
+     text=("Generated parallel calls for every block count 0..40 on every back end must equal the single-block functions block "
+           "by block. Both loops (vector batches and the scalar remainder) are exercised; sampling over keys and data."),
+     note="differential within the library; the model is only a second opinion",
+     design_ref="DESIGN.md#c07")
+
+def c10_post(cov):
+    cl = cov.get("classes", {})
+    missing = [n for fam, top in (("skinny128", 64), ("skinny64", 40), ("mantis", 40)) for n in range(top + 1)
+               if ("%s/len=%d" % (fam, n)) not in cl]
+    cov["length_dimension_complete"] = not missing
+    cov["lengths_not_generated"] = missing[:20]
+
+prop("C10",
+     units=lambda tier: [Unit("c10", "c10.cpp", SHIPPED, cases=scale(tier, 3000, 100000), shards=12),
+                         asan_unit("c10-asan", "c10.cpp", scale(tier, 800, 20000), args=["--heap", "1"], shards=4 if tier == "quick" else 16)],
+     level="exploration",
+     post_cov=c10_post,
+     rule=("key length drawn from 0..3*bs+16 (Mantis 0..40) or a huge value (2^31-1, 2^31, 2^32-1, 0x10000+bs, ...) x entry point "
+           "in {set_key, set_tweaked_key, ctr_set_key, ctr_set_tweaked_key, parallel_ecb_set_key} x {Skinny-128, Skinny-64}, "
+           "Mantis {set_key, ctr_set_key, parallel_ecb_set_key} x rounds 0..12 and huge, x object state {fresh, previously "
+           "keyed} x random key bytes; the key buffer holds exactly min(len, max) bytes; oracles: accepted iff documented (API "
+           "model), accepted == same bytes zero-padded to the next primary size (library vs library: image, keystream, "
+           "blocks) and == specification model, rejected => 0, schedule image and later behaviour unchanged; non-trivial = "
+           "length strictly between primary sizes or rejected; 'length_dimension_complete' reports whether every small length "
+           "was generated in this run"),
+     assumptions=MODEL_ASSUME + BUILD_ASSUME + ["second unit: ASan build with exact-size heap key buffers, so reading a rejected huge length faults"],
+     technique="property-based testing (rapidcheck) with the length dimension swept: API model + zero-padding metamorphic relation + ASan",
+     text=("Every small key length and a set of huge ones, through every key-setting entry point, is checked for accept/reject, "
+           "zero-padding equivalence and leave-untouched-on-reject. The length dimension is swept in every run (reported), key "
+           "bytes are sampled."),
+     note="trusts the model for accept/reject and padding; the library-vs-library padding relation is independent of it",
+     design_ref="DESIGN.md#c10")
+
 # ----------------------------------------------------------------------------- generic entry points
 def run(pid, tier, seed, replay):
     p = PROPS[pid]
@@ -216,7 +280,7 @@ def run(pid, tier, seed, replay):
     if replay:
         return runner.replay_only(pid, units, replay)
     return runner.run_units(pid, units, tier, seed, p["level"], p["rule"], p["assumptions"],
-                            known=known_for(pid), extra_cov=p.get("extra_cov"))
+                            known=known_for(pid), extra_cov=p.get("extra_cov"), post_cov=p.get("post_cov"))
 
 
 REGISTRY = {pid: run for pid in PROPS}
